@@ -27,7 +27,26 @@ def run_c23(rnd, tier, v, stats):
             q._sdb, q._key = sdb, key
             model = []
             ok = True
-            for step in range(rnd.randint(1, 7)):
+            if rnd.random() < 0.3:
+                # a queue filled BEFORE it becomes durable (constructor preload, duplicates included), then synced into the empty
+                # store: the pin branch of sync() (what Hold.inject does)
+                pre = [rnd.choice(vals) for _ in range(rnd.randint(1, 4))]
+                q = Durq(pre) if kind == "durq" else Dusq(pre)
+                for y in pre:
+                    if kind == "durq" or y not in model:
+                        model.append(y)
+                q._sdb, q._key = sdb, key
+                ops.append(("prefill-then-sync", [y.value for y in pre]))
+                try:
+                    q.sync()
+                except Exception as ex:   # noqa
+                    v("C23/operation-raised", dict(kind=kind, ops=list(ops), witness_class=type(ex).__name__), repr(ex)[:120])
+                    ok = False
+                stats["evals"] += 1
+                if ok and list(sdb.get(key)) != model:
+                    v("C23/durable-copy-differs-from-model", dict(kind=kind, ops=list(ops)), [c.value for c in sdb.get(key)], [m.value for m in model])
+                    ok = False
+            for step in range(rnd.randint(1, 7) if ok else 0):
                 op = rnd.choice(["push", "push", "pull", "pull", "many", "many", "clear", "remove", "reopen"])
                 x = rnd.choice(vals)
                 ops.append((op, x.value))
